@@ -499,13 +499,21 @@ func runC12(r *core.Run) {
 func checkCanon(c c12Canon) core.Outcome {
 	seq := c.Seq.B()
 	orig := bytes.Clone(seq)
-	var items [][]byte
+	var items, kept [][]byte
 	if p := catch(func() {
 		for km := range sequtil.CanonicalSubsequences(seq, c.K) {
 			items = append(items, bytes.Clone(km))
+			kept = append(kept, km) // what slices.Collect keeps: the items themselves
 		}
 	}); p != "" {
 		return core.Failf("CanonicalSubsequences(%q,%d) panicked: %s", seq, c.K, p)
+	}
+	// The items are what the walk yields, also when looked at after the walk (slices.Collect, a list
+	// of k-mers handed on): item i must still be what it was when it was yielded.
+	for i := range kept {
+		if !bytes.Equal(kept[i], items[i]) {
+			return core.Failf("CanonicalSubsequences(%q,%d): item %d was %q when yielded and is %q once the walk is over (the items collected by slices.Collect are not the k-mers)", seq, c.K, i, items[i], kept[i])
+		}
 	}
 	n := len(seq) - c.K + 1
 	if n < 0 {
